@@ -109,6 +109,9 @@ struct Parser<'a> {
     depth: u32,
     tag: SfTag,
     sexagesimal_is_time: bool,
+    /// The innermost enclosing unit function is `rad(...)`: a sexagesimal angle in it is
+    /// converted here, since `rad` itself converts nothing.
+    in_rad_fn: bool,
 }
 
 impl<'a> Parser<'a> {
@@ -122,6 +125,7 @@ impl<'a> Parser<'a> {
             depth: 0,
             tag,
             sexagesimal_is_time: true,
+            in_rad_fn: false,
         }
     }
     #[inline]
@@ -441,12 +445,16 @@ impl<'a> Parser<'a> {
                 return Err(self.err("expected '(' after function name"));
             }
             // Inside unit functions, treat sexagesimal as degrees (angle) rather than time.
+            let is_deg = ident.eq_ignore_ascii_case("deg");
             let old_mode = self.sexagesimal_is_time;
+            let old_in_rad = self.in_rad_fn;
             self.sexagesimal_is_time = false;
+            self.in_rad_fn = !is_deg;
             self.enter()?;
             let r = self.expr();
             self.exit();
             self.sexagesimal_is_time = old_mode;
+            self.in_rad_fn = old_in_rad;
             let (v, _used_inner, _plain_inner) = r?;
             self.skip_ws();
             if self.bump() != Some(b')') {
@@ -454,7 +462,7 @@ impl<'a> Parser<'a> {
             }
 
             let used_unit = true;
-            if ident.eq_ignore_ascii_case("deg") {
+            if is_deg {
                 Ok((v * DEG2RAD, used_unit, false))
             } else {
                 Ok((v, used_unit, false))
@@ -567,9 +575,14 @@ impl<'a> Parser<'a> {
             let total_seconds = deg_whole * 3600.0 + (mins_u as f64) * 60.0 + secs;
             Ok(Some((total_seconds, true, false)))
         } else {
-            // Angle mode (inside unit functions): interpret as degrees numeric; conversion is handled by the wrapping unit (deg()/rad()).
+            // Angle mode (inside unit functions): interpret as degrees numeric; `deg(...)`
+            // converts it, `rad(...)` converts nothing, so inside `rad` it is converted here.
             let degrees = deg_whole + (mins_u as f64) / 60.0 + secs / 3600.0;
-            Ok(Some((degrees, true, false)))
+            if self.in_rad_fn {
+                Ok(Some((degrees * DEG2RAD, true, false)))
+            } else {
+                Ok(Some((degrees, true, false)))
+            }
         }
     }
 
